@@ -114,6 +114,21 @@ def cases(draw):
         if draw(st.booleans()) and draw(st.booleans()):
             flags.append(f)
     taskplot = draw(st.sampled_from([0, 0, 0, 2]))
+    # a task pool only a little larger than the hydro tasks (18 per subgrid):
+    # the radiation tasks of one step (several iterations) then wrap around the
+    # pool index; at most ~50 of them exist at the same time (source tasks +
+    # full buffers + one premature launch per idle thread), so the capacity is
+    # not exhausted.  Not with a task plot (tasks are then kept, not freed).
+    if rhd["radiation"] and taskplot == 0 and draw(st.booleans()):
+        nsubt = rhd["nsub"][0] * rhd["nsub"][1] * rhd["nsub"][2]
+        rhd["pools"] = dict(rhd["pools"], tasks=18 * nsubt + draw(st.sampled_from([150, 250])))
+        rhd["photons"] = 2000
+        rhd["iterations"] = draw(st.sampled_from([3, 5]))
+        rhd["opts"]["task-pool-wraps"] = True
+        rhd["nsteps"] = min(rhd["nsteps"], 2)
+        # (10 iterations of 2000 packets are too slow under valgrind)
+        return {"mode": mode, "threads": threads, "flags": flags, "rhd": rhd, "taskplot": taskplot,
+                "tool": "asan"}
     return {"mode": mode, "threads": threads, "flags": flags, "rhd": rhd, "taskplot": taskplot,
             "tool": draw(st.sampled_from(["valgrind", "asan", "asan"]))}
 
@@ -200,8 +215,15 @@ def check_run(case, workdir):
             r.inconclusive = "run %d did not finish within %d s under %s" % (i, timeout, tool)
             return r
         bad = classify_output(run, tool)
+        # a memory-checker report or a crash of a multi-threaded run was
+        # observed on real threads: it counts even if a re-run takes another
+        # interleaving
+        r.schedule_dependent = case["threads"] > 1
         if bad:
             return r.fail("run %d (%s): %s" % (i, " ".join(args[2:]), bad))
+        if run["rc"] == -9:
+            r.inconclusive = "run %d was killed (SIGKILL: out of memory on a loaded machine?)" % i
+            return r
         if run["rc"] != 0:
             return r.fail("run %d (%s) exited with status %s: %s" % (
                 i, " ".join(args[2:]), run["rc"], run["out"][-700:].replace("\n", " | ")))
@@ -218,7 +240,7 @@ def check_run(case, workdir):
 
 SUBS = [
     pbt.Sub("whole_runs", cases(), check_run, quick=96, thorough=2400, shrink_budget=6,
-            rule="mode in {task-based photoionization, task-based RHD with radiation, hydro only, stop+restart}; optional components: live output with each sub-output, trackers, hydro mask, turbulence forcing, external point mass, diffuse field, continuous sources (with a discrete distribution that has no luminosity in half of the mixed cases), subgrid copies, task plots, -e, --no-initial-output; 1-4 threads; <= 12^3 cells, <= 2000 packets, <= 4 steps; each run under valgrind memcheck (1/3) or the ASan+UBSan build (2/3); non-trivial: >= 2 optional components or restart mode",
+            rule="mode in {task-based photoionization, task-based RHD with radiation, hydro only, stop+restart}; optional components: live output with each sub-output, trackers, hydro mask, turbulence forcing, external point mass, diffuse field, continuous sources (with a discrete distribution that has no luminosity in half of the mixed cases), subgrid copies, task plots, a task pool that wraps around within a step (radiation runs), -e, --no-initial-output; 1-4 threads; <= 12^3 cells, <= 2000 packets, <= 4 steps; each run under valgrind memcheck (1/3) or the ASan+UBSan build (2/3); non-trivial: >= 2 optional components or restart mode",
             floors={"tool-valgrind": 0.15, "tool-asan": 0.3}),
 ]
 
